@@ -579,6 +579,12 @@ def _main(run, tier):
     builds = private_builds(run)
     col = Collector(run)
 
+    phases, _t = {}, [time.time(), "setup"]
+
+    def _mark(name):
+        phases[_t[1]] = round(time.time() - _t[0], 1)
+        _t[0], _t[1] = time.time(), name
+    run.cov["phase_wall_s"] = phases
     # ---- MC (in a thread: TLC uses 8 workers while the replays use the other cores)
     mc_cfg = "WeightOrderMC_quick.cfg" if quick else "WeightOrderMC_thorough.cfg"
     mc_out = {}
@@ -600,9 +606,11 @@ def _main(run, tier):
         raise MachineryError("vacuity: WeightOrderMC.Pick never fired")
     run.add_mc("WeightOrderMC(coverage lattice)", cov)
 
+    _mark("raw_family")
     # ---- exhaustive short raw sequences
     raw_family(run, col, builds, 6 if quick else 7, 6)
 
+    _mark("out_of_range")
     # ---- out-of-range requests (each alone: a crash must not hide other requests)
     oor_jobs = []
     for w in ([256], [-256], [0, 300, 0], [1, 2, -32768], [32767]):
@@ -634,6 +642,7 @@ def _main(run, tier):
     run.cov["out_of_range_element_types"] = ["int16", "uint16", "int32", "uint32", "int64"]
     run.cov["out_of_range_requests"] = len(oor_jobs)
 
+    _mark("generated_replays")
     # ---- generated raw sequences and volumes, TLC-sized
     jobs = []
     nseq = 3 if quick else 24
@@ -652,6 +661,7 @@ def _main(run, tier):
                      "gen": {"dist": rng.choice(DISTS), "seed": rng.randrange(1 << 30)}})
     ev_gen, meta_gen, modes = replay_requests(run, col, "generated", jobs, builds, 7)
 
+    _mark("mc_wait_and_lattice_replays")
     # ---- S2C: the configurations TLC model-checked, with index-valued weights
     th.join()
     if "err" in mc_out:
@@ -686,6 +696,7 @@ def _main(run, tier):
     ev_mc, meta_mc, _ = replay_requests(run, col, "mc lattice", jobs2, builds, 7)
     run.cov["mc_lattice_configurations_replayed"] = len(jobs2)
 
+    _mark("tlc_judgement")
     # ---- cross-check of the python rendering of Order, by TLC
     xs = []
     for c in picked[:: max(1, len(picked) // (100 if quick else 400))]:
@@ -711,6 +722,7 @@ def _main(run, tier):
     if [0, "PyOrderMatchesSpec"] not in [list(v) for v in v2]:
         raise MachineryError("negative control not detected: rotated python order accepted")
 
+    _mark("large")
     # ---- large volumes and long sequences, compared in python (rendering cross-checked above)
     big = []
     nbig = 10 if quick else 120
@@ -729,7 +741,9 @@ def _main(run, tier):
     if missing:
         raise MachineryError("vacuity: coding modes never triggered by the generators: %s" % missing)
 
+    _mark("negative_controls")
     negative_controls(run)
+    _mark("end")
 
     if run.cov.get("skipped_after_crashes") and not run.violations and not run.known_hits:
         raise MachineryError("requests were skipped after repeated worker deaths but no violation was recorded")
